@@ -48,7 +48,10 @@ class SpecSim(Sim):
         atoms += ['nope:1', '%s:9.9' % ids[0], 'a*', 'a*:*', '*:1*', '?:*', 'a?:*', '[ab]*:*',
                   'a[^b]*:*', '*b:*', '??:*', 'a?', '[a-b]', 'a-*', '*:*.*', '*:?']
         atoms = sorted(set(atoms))
-        specs = rng.sample(atoms, min(len(atoms), 22))
+        # a core asked in every store state (the same request must follow the store, whoever
+        # changed it) + a seeded sample of the rest
+        core = ['*'] + ids[:3] + ['%s:*' % i for i in ids[:2]]
+        specs = core + rng.sample(atoms, min(len(atoms), 18))
         for _ in range(14):
             k = rng.choice([2, 2, 3])
             specs.append(' '.join(rng.choice(atoms) for _ in range(k)))
@@ -106,8 +109,10 @@ class SpecSim(Sim):
                             % self.classify(spec, got, want),
                             {'spec': spec, 'lang': lang, 'observed': got, 'expected': want,
                              'installed_in_add_order': list(m.installed)}, tags)
-            # wn.remove(spec) selection, on a copy of the database
-            for spec, _ in self.battery(rng)[:3]:
+            # wn.remove(spec) selection, on a copy of the database (not in every state: the
+            # copy/restore replaces the pooled connection, which would hide state kept per
+            # connection)
+            for spec, _ in (self.battery(rng)[6:9] if rng.random() < 0.35 else []):
                 snap = self.W.snapshot()
                 m2 = m.copy()
                 matched = m2.select(spec)
@@ -188,6 +193,12 @@ def build(seed):
             m.remove_specs([sp])
         else:
             plan.append({'op': 'restart'})
+    if prng.random() < 0.12:
+        # one of the later mutations is performed by a second process
+        cands = [i for i, op in enumerate(plan) if i >= 1 and op['op'] in ('add', 'remove')]
+        if cands:
+            i = prng.choice(cands)
+            plan[i] = {'op': 'external', 'do': dict(plan[i])}
     return u, plan
 
 
